@@ -14,12 +14,23 @@ mod c19;
 mod c15;
 mod lg;
 mod show;
+mod c08;
 mod inputs;
 
 #[path = "/repo/harper-ls/src/git_commit_parser.rs"]
 mod git_commit_parser;
 #[path = "/repo/harper-ls/src/config.rs"]
 mod config;
+#[path = "/repo/harper-ls/src/backend.rs"]
+mod backend;
+#[path = "/repo/harper-ls/src/diagnostics.rs"]
+mod diagnostics;
+#[path = "/repo/harper-ls/src/dictionary_io.rs"]
+mod dictionary_io;
+#[path = "/repo/harper-ls/src/document_state.rs"]
+mod document_state;
+#[path = "/repo/harper-ls/src/pos_conv.rs"]
+mod pos_conv;
 
 fn main() {
     let argv: Vec<String> = std::env::args().collect();
@@ -43,6 +54,7 @@ fn main() {
         "c12" => lg::c12(&a),
         "show" => show::main(&a),
         "c14" => lg::c14(&a),
+        "c08" => c08::main(&a),
         other => {
             eprintln!("unknown subcommand {other}");
             std::process::exit(2);
